@@ -8,3 +8,23 @@ package standard
 //@ // C17: lock discipline.
 //@ type Service
 //@   guarded_by validatorsMutex: validatorsByIndex, validatorsByPubKey, validatorPubKeyToIndex
+//@   // established by New (parseAndCheckParameters rejects nil for these)
+//@   valid self.validatorsProvider != nil && self.clientMonitor != nil
+//@
+//@ // ---- C13: a refresh that returns nothing keeps what is known; otherwise each validator is known by its index ----
+//@ spec func fetchedValidators() map[phase0.ValidatorIndex]*v1.Validator
+//@ spec func fetchValidatorsErr() error
+//@ func (*Service).RefreshValidatorsFromBeaconNode
+//@   requires nolocks()
+//@   // assumed of go-eth2-client: the answer is keyed by validator index and has no empty entries
+//@   assumes call Validators#1 (resp, err): err == fetchValidatorsErr() && (err == nil ==> resp != nil && resp.Data == fetchedValidators() && (forall i phase0.ValidatorIndex :: in(resp.Data, i) ==> resp.Data[i] != nil && resp.Data[i].Validator != nil && resp.Data[i].Index == i))
+//@   loop 1
+//@     invariant forall i phase0.ValidatorIndex :: visited(i) ==> in(validatorsByIndex, i) && validatorsByIndex[i] == validators[i].Validator
+//@     invariant forall i phase0.ValidatorIndex :: in(validatorsByIndex, i) ==> in(validators, i) && validatorsByIndex[i] == validators[i].Validator
+//@     invariant forall p phase0.BLSPubKey :: in(validatorsByPubKey, p) <==> in(validatorPubKeyToIndex, p)
+//@     invariant forall p phase0.BLSPubKey :: in(validatorsByPubKey, p) ==> in(validators, validatorPubKeyToIndex[p]) && validators[validatorPubKeyToIndex[p]].Validator == validatorsByPubKey[p] && validatorsByPubKey[p].PublicKey == p
+//@   ensures fetchValidatorsErr() != nil || len(fetchedValidators()) == 0 ==> s.validatorsByIndex == old(s.validatorsByIndex) && s.validatorsByPubKey == old(s.validatorsByPubKey) && s.validatorPubKeyToIndex == old(s.validatorPubKeyToIndex)
+//@   ensures result == nil && len(fetchedValidators()) > 0 ==> forall i phase0.ValidatorIndex :: in(s.validatorsByIndex, i) <==> in(fetchedValidators(), i)
+//@   ensures result == nil && len(fetchedValidators()) > 0 ==> forall i phase0.ValidatorIndex :: in(fetchedValidators(), i) ==> s.validatorsByIndex[i] == fetchedValidators()[i].Validator
+//@   // the lookup by public key answers with that key's validator and its own index
+//@   ensures result == nil && len(fetchedValidators()) > 0 ==> forall p phase0.BLSPubKey :: in(s.validatorsByPubKey, p) ==> in(s.validatorPubKeyToIndex, p) && in(fetchedValidators(), s.validatorPubKeyToIndex[p]) && fetchedValidators()[s.validatorPubKeyToIndex[p]].Validator == s.validatorsByPubKey[p] && s.validatorsByPubKey[p].PublicKey == p
